@@ -36,6 +36,7 @@ pub fn vocab(kind: &str, w: usize) -> Vec<Cmd> {
         cmd("set", &v, 77, 0, o + 4), // stale / foreign token
         cmd("delete", b"", 0, 0, o + 5),
         cmd("delete", b"", 1, 0, o + 6),
+        cmd("set", &v, 0, 3, o + 15), // a store that itself carries a (short) TTL
     ];
     if kind == "C04" {
         base.extend(vec![
@@ -47,13 +48,14 @@ pub fn vocab(kind: &str, w: usize) -> Vec<Cmd> {
             cmd("decr", b"", 0, 0, o + 12),
             cmd("incr", b"", 1, 0, o + 13),
             cmd("append", &t, 1, 0, o + 14),
+            cmd("add", &v, 0, 3, o + 16),
         ]);
     }
     base
 }
 
 fn prog(kind: &str, init: &str, clients: Vec<Vec<Cmd>>, name: String) -> Program {
-    Program { name, kind: kind.into(), init: init.into(), policy: "none".into(), mem_limit: 0, keys: vec![K.to_vec()], setup: setup(init), clients }
+    Program { layer: "memc".into(), name, kind: kind.into(), init: init.into(), policy: "none".into(), mem_limit: 0, keys: vec![K.to_vec()], setup: setup(init), clients }
 }
 
 /// all two-client programs with one command each (unordered pairs), for every initial state
@@ -65,7 +67,7 @@ pub fn pairs(kind: &str) -> Vec<Program> {
         for i in 0..a.len() {
             for j in i..b.len() {
                 // for C04 at least one read-modify-write command
-                if kind == "C04" && i < 6 && j < 6 {
+                if kind == "C04" && i < 7 && j < 7 {
                     continue;
                 }
                 out.push(prog(kind, init, vec![vec![a[i].clone()], vec![b[j].clone()]], format!("{}-{}-{}+{}", kind, init, a[i].op, b[j].op)));
@@ -90,7 +92,7 @@ pub fn sampled(kind: &str, n: usize, rng: &mut SmallRng) -> Vec<Program> {
                 let mut c = v.choose(rng).unwrap().clone();
                 // for C04 programs prefer the read-modify-write commands
                 if kind == "C04" && rng.gen_bool(0.6) {
-                    c = v[6 + rng.gen_range(0..8)].clone();
+                    c = v[7 + rng.gen_range(0..9)].clone();
                 }
                 cl.push(c);
             }
@@ -112,7 +114,7 @@ pub fn swarms(kind: &str) -> Vec<Program> {
         }
         return out;
     }
-    for (op_idx, init) in [(6usize, "absent"), (6, "expired"), (10, "present"), (10, "absent"), (8, "present"), (11, "present")] {
+    for (op_idx, init) in [(7usize, "absent"), (7, "expired"), (15, "expired"), (11, "present"), (11, "absent"), (9, "present"), (12, "present")] {
         let clients: Vec<Vec<Cmd>> = (0..3).map(|w| vec![vocab(kind, w)[op_idx].clone()]).collect();
         out.push(prog(kind, init, clients, format!("{}-swarm-{}-{}", kind, vocab(kind, 0)[op_idx].op, init)));
     }
@@ -156,7 +158,7 @@ pub fn eviction(kind: &str, n: usize, rng: &mut SmallRng) -> Vec<Program> {
             }
             clients.push(cl);
         }
-        out.push(Program { name: format!("{}-evict-{}", kind, x), kind: kind.into(), init: "mixed".into(), policy: "random".into(),
+        out.push(Program { layer: "memc".into(), name: format!("{}-evict-{}", kind, x), kind: kind.into(), init: "mixed".into(), policy: "random".into(),
             mem_limit: limit, keys: keys.clone(), setup, clients });
     }
     out
